@@ -58,7 +58,7 @@ func (g *genState) sweepCase(e *entry, m sweepMode, emit bool) {
 	}
 	desc := fmt.Sprintf("well-formed value: small integers=%d, byte strings of %d bytes, wide=%d, lists=%d", m.enum, m.blen, m.wide, m.list)
 	b, errs, pan := goEncode(p)
-	if pan != "" || errs != "" || len(b) > 60000 {
+	if pan != "" || errs != "" || len(b) > 6<<20 {
 		g.res.Count("sweep_not_encodable")
 		return
 	}
@@ -78,6 +78,7 @@ func (g *genState) sweepCase(e *entry, m sweepMode, emit bool) {
 			return
 		}
 		g.hashOracle(e, o.obj, read, re, via)
+		g.ownershipOracle(e, viaByName(e, via), read)
 		if !bytes.Equal(re, read) {
 			cl := classify(e, read, re)
 			what := "noncanonical-accept:" + cl
@@ -171,6 +172,20 @@ func (g *genState) sweepCampaign(boost map[string]bool) {
 				}
 			}
 		}
+	}
+}
+
+// byte fields around every size threshold in sight (a page, 64 KiB, 1 MiB where cheap)
+func (g *genState) bigBytesCampaign() {
+	k := 0
+	for _, e := range entries {
+		for _, bl := range []int{4095, 4096, 4097, 65535, 65536} {
+			k++
+			g.sweepCase(e, sweepMode{enum: 1, blen: bl, wide: 3, list: 1}, false)
+		}
+	}
+	for _, tn := range []string{"UconMessage", "Transaction", "StakingMessage", "Evidences"} {
+		g.sweepCase(entryByName(tn), sweepMode{enum: 1, blen: 1 << 20, wide: 1, list: 1}, false)
 	}
 }
 
